@@ -55,7 +55,7 @@ JudgeProcess(e) ==
       specs == Flat([k \in 1..n |-> [i \in 1..Len(ws[k].xs) |-> [x |-> ws[k].xs[i], l |-> Len(ws[k].xs[i])]]])
       xok == ExtractOK(e.data, specs)
       verdict == Verdict([auth |-> e.auth, cfg |-> e.cfg, items |-> ws], e.mode)
-      mustFail == ~xok \/ verdict = "invalid" \/ e.flaw = "nocode"
+      mustFail == ~xok \/ verdict = "invalid"
       calls == [k \in 1..n |-> ItemFetches(ws[k].imports, dict, erasure)]
       flatCalls == Flat(calls)
       segs == [k \in 1..n |-> [i \in 1..Len(calls[k]) |-> FetchEntry(e, calls[k][i]).prefix \o Zeros(SegLen - Len(FetchEntry(e, calls[k][i]).prefix))]]
@@ -75,7 +75,7 @@ JudgeProcess(e) ==
       prepOK == e.prep.err = 0 /\ e.prep.panic = 0
   IN IF g.panic = 1 \/ e.prep.panic = 1 \/ e.shared.panic = 1 THEN {"panic:Process"}
      ELSE IF mustFail THEN Why(g.err = 0, "report_for_a_package_that_must_be_refused")
-     ELSE IF verdict = "either" THEN {}
+     ELSE IF verdict = "either" \/ e.flaw = "nocode" THEN {}      \* unavailable authorizer code: the (scripted) authorizer decides
      ELSE IF g.err = 1 THEN {"acceptable_package_refused"}
      ELSE
        \* preparation: fetches, bundle, package hash
@@ -97,10 +97,12 @@ JudgeProcess(e) ==
        \cup Why(g.core # e.core, "core_index")
        \cup Why(g.pa # e.want_pa, "authorizer_hash")
        \cup Why(g.authout # e.authout \/ g.authgas # e.authgas, "authorizer_output_or_gas")
+       \cup Why(g.authcode # e.code, "authorizer_code_not_the_looked_up_code")
        \* segment-root lookup dictionary
        \cup Why(~(wantLookup \subseteq gotLookup), "lookup_misses_a_referenced_package")
        \cup Why(gotLookup # wantLookup, "lookup_has_unreferenced_entries")
        \cup Why(Len(g.lookup) # Cardinality(gotLookup) \/ Len(g.lookup) > 8, "lookup_duplicates_or_more_than_8")
+       \cup Why(\E i \in 1..(Len(g.lookup) - 1) : g.lookup[i][1] >= g.lookup[i + 1][1], "lookup_not_ordered_by_hash")
        \* the second guarantor, working from the bundle, signs the same report
        \cup Why(prepOK /\ (e.shared.ran = 0 \/ e.shared.err = 1), "second_guarantor_failed")
        \cup Why(prepOK /\ e.shared.ran = 1 /\ e.shared.err = 0 /\ e.shared.rep # g.rep, "guarantors_disagree")
